@@ -251,7 +251,6 @@ theorem g_callFn (c : ICtx) (D : Env) (a : Nat) (args : List Seq) :
     repeat' (first
       | exact Good.thr _
       | exact Good.ret _ rfl
-      | (apply Good.bnd (Good.flag _ rfl rfl); intro _ _)
       | (apply Good.bnd (Good.lift _); intro _ _)
       | split)
   | inline ps body =>
@@ -375,7 +374,7 @@ theorem g_mapLoop (c : ICtx) (b : Expr) (size : Nat) : ∀ (is : Seq) (k : Nat) 
   | [], k, D, acc, _ => Good.ret _ rfl
   | i :: is, k, D, acc, hD => by
     simp only [mapLoop]
-    apply Good.bnd (hev b { c with item := some i, litem := some i, pos := k, size := size } D hD); intro r hr
+    apply Good.bnd (hev b { c with item := some i, pos := k, size := size } D hD); intro r hr
     rw [hr]
     exact g_mapLoop c b size is _ D _ hD
 
@@ -491,19 +490,16 @@ theorem g_step (e : Expr) (c : ICtx) (D : Env) (hD : EnvEq D c.lex) :
     · exact Good.thr _
   | dot =>
     simp only [step]
-    apply Good.bnd (Good.flag _ rfl rfl); intro _ _
     split
     · exact Good.ret _ rfl
     · exact Good.thr _
   | posE =>
     simp only [step]
-    apply Good.bnd (Good.flag _ rfl rfl); intro _ _
     split
     · exact Good.ret _ rfl
     · exact Good.thr _
   | lastE =>
     simp only [step]
-    apply Good.bnd (Good.flag _ rfl rfl); intro _ _
     split
     · exact Good.ret _ rfl
     · exact Good.thr _
